@@ -10,7 +10,10 @@ hands the body over as generated / renumbered / Fortran-ordered with 32-bit
 cells and calls the tool as a method or as the module-level function
 ``felupe.mesh.<tool>`` in one of the five documented call styles (judged by
 the same post-conditions, ``vmon.monitors.mesh.call_function``).  The special
-cases drive every documented argument at least once by construction.
+cases drive every documented argument at least once by construction, by keyword
+and by position: the hooks name positional values by the documented order and
+fill in the documented defaults (tables ``DOC_ORDER``, ``DOC_DEFAULTS``,
+``DOC_GEN`` of the monitor), never by the parameter lists under test.
 """
 import numpy as np
 
@@ -469,11 +472,61 @@ def case_special(name):
                          ("add_midpoints_volumes", c, (), {}), ("add_midpoints_volumes", c.add_midpoints_edges().add_midpoints_faces(), (), {}),
                          ("collect_edges", c, (), {}), ("collect_faces", q8, (), {}), ("collect_volumes", ct4, (), {}),
                          ("merge_duplicate_points", dbl, (), dict(decimals=6)), ("merge_duplicate_points", dbl, (), {}),
-                         ("merge_duplicate_cells", fem.mesh.concatenate([r, r]).merge_duplicate_points(), (), {})]
+                         ("merge_duplicate_cells", fem.mesh.concatenate([r, r]).merge_duplicate_points(), (), {}),
+                         # fourth audit: the tools' own arguments by position, in the documented order (the hook names them by its own table,
+                         # vmon.monitors.mesh.DOC_ORDER, not by the parameter list under test); neighbours differ so that a mix-up shows
+                         ("mirror", c, ([1, 0.3, -0.2], [0.1, 0.2, 0.3]), {}), ("mirror", r, ([1, 0, 0], [0.7, 0.4, 0], 1), {}),
+                         ("convert", c, (2, False, True, False), {}), ("convert", ct4, (2, False, False, True), {}),
+                         ("expand", r, (4, 2), {}), ("expand", r.expand(n=1), (3, 0.5, 2, False), {}),
+                         ("revolve", r, (5, 90.0, 0), {}), ("revolve", r.expand(n=1), (5, 90, 0, False), {}),
+                         ("rotate", r, (40.0, 2, [1.0, 1.0]), {}), ("rotate", c, (-30.0, 0, [0.5, 0.2, 0.1], np.arange(c.npoints) % 2 == 0), {}),
+                         ("flip", r, (mask,), {}), ("merge_duplicate_points", dbl, (6,), {}), ("add_midpoints_edges", r, ("quad8",), {})]
+                npos = sum(1 for _, _, args, _ in calls if len(args) > 1)
                 for k, (tool, m, args, kw) in enumerate(calls):
                     for j, style in enumerate(MM.STYLES):
                         if run.tier == "thorough" or j in (0, 1 + k % 4, 1 + (k + 1) % 4):
                             MM.call_function(run, tool, m, style, *args, **kw)
+                run.units["function:positional-arguments"] += npos
+            elif name == "positional":
+                # fourth audit: every tool with more than one argument of its own, called as a method with the values by position in the
+                # documented order (judged by the hooks, which name positional values by vmon.monitors.mesh.DOC_ORDER); neighbouring
+                # values differ in kind or size so that two exchanged parameters give another mesh (or a refusal)
+                r3, ct4 = r.expand(n=1), c.triangulate()
+                calls = [(r, "mirror", ([0, 1, 0], [0.0, 0.3, 0.0])), (c, "mirror", ([1, 0.3, -0.2], [0.1, 0.2, 0.3])), (r, "mirror", ([1, 0, 0], [0.7, 0.4, 0], 1)),
+                         (c, "mirror", ([0, 0, 1], [0.2, 0.1, 0.6], 0)),
+                         (c, "convert", (2, False, True, False)), (c, "convert", (2, False, False, True)), (ct4, "convert", (2, False, True, False)),
+                         (r, "convert", (0, True)), (r, "expand", (4, 2)), (fem.mesh.Line(a=0.3, b=1.7, n=4), "expand", (3, 0.5)), (r3, "expand", (3, 0.5, 2, False)),
+                         (r, "expand", (2, [0.0, 0.4, 1.0], 2, True)), (r, "revolve", (5, 90.0, 0)), (r, "revolve", (3, [0.0, 30.0, 80.0, 140.0], 0, True)),
+                         (r3, "revolve", (5, 90, 0, False)), (fem.mesh.Line(a=1, b=3, n=4), "revolve", (6, 120, 2)),
+                         (r, "rotate", (40.0, 2, [1.0, 1.0])), (c, "rotate", (-30.0, 0, [0.5, 0.2, 0.1])), (c, "rotate", (25.0, 1, [0.5, 0.2, 0.1], np.arange(c.npoints) % 2 == 0)),
+                         (r, "translate", (0.5, 1)), (c, "translate", (-0.3, 2)), (c, "disconnect", (8, True)), (r, "disconnect", (None, True)),
+                         (r, "add_runouts", ([0.2], [1.25, 1.5, 0], 0, 1, slice(None), True)), (c, "add_runouts", ([0.1, 0.3], [1.0, 0.5, 0.0], 2, 1, slice(None), False))]
+                for m, tool, args in calls:
+                    getattr(m, tool)(*args)
+                    run.units["method:positional-arguments"] += 1
+                fem.mesh.fill_between(fem.mesh.Line(a=0, b=1, n=4).expand(n=1), fem.mesh.Line(a=0, b=1, n=4).expand(n=1).translate(1.0, 1), 4)
+                # the generators with their arguments by position: stated on this side (the hooks get the names of a generator's
+                # values from the constructor's own parameter list) - bounding box, number of points and of cells, covered measure
+                u = float(rng.uniform(0.5, 2))
+                gens = [("Line", fem.mesh.Line(-1.0 * u, 2.0 * u, 4), [-u], [2 * u], 4, 3, 3 * u),
+                        ("Rectangle", fem.Rectangle((0.3 * u, -0.2), (1.1 * u, 0.9), (3, 4)), [0.3 * u, -0.2], [1.1 * u, 0.9], 12, 6, 0.8 * u * 1.1),
+                        ("Cube", fem.Cube((0.3, -0.2 * u, 1.0), (1.1, 0.9 * u, 1.7), (3, 2, 4)), [0.3, -0.2 * u, 1.0], [1.1, 0.9 * u, 1.7], 24, 6, 0.8 * 1.1 * u * 0.7),
+                        # (a half disc of two quarter sections: 33 points, 24 cells, 8 equal chords on the arc)
+                        ("Circle", fem.Circle(1.5 * u, [1.0, -1.0], 3, [0, 90], 0.2, 3, 10), [1.0 - 1.5 * u, -1.0], [1.0 + 1.5 * u, -1.0 + 1.5 * u], 33, 24,
+                         8 * 0.5 * (1.5 * u) ** 2 * np.sin(np.pi / 8)),
+                        ("Triangle", fem.mesh.Triangle((0, 0), (3 * u, 0), (1, 2), 3, 10), [0.0, 0.0], [3 * u, 2.0], 19, 12, 3.0 * u),
+                        ("RectangleArbitraryOrderQuad", fem.mesh.RectangleArbitraryOrderQuad((-1, 0), (1, 2 * u), 3), [-1.0, 0.0], [1.0, 2 * u], 16, 1, None),
+                        ("CubeArbitraryOrderHexahedron", fem.mesh.CubeArbitraryOrderHexahedron((-1, 0, 1), (1, 2 * u, 2), 2), [-1.0, 0.0, 1.0], [1.0, 2 * u, 2.0], 27, 1, None)]
+                for gname, g, lo, hi, npts, ncells, measure in gens:
+                    err = max(float(np.abs(g.points.min(0) - lo).max()), float(np.abs(g.points.max(0) - hi).max())) / float(np.ptp(g.points, axis=0).max())
+                    if measure is not None:
+                        v = OC.signed_volumes(g.points, g.cells, g.cell_type)
+                        err = max(err, abs(float(v.sum()) - measure) / measure) + float(not np.all(v > 0))
+                    run.compare("mesh.gen." + gname, "generator=%s clause=positional-arguments" % gname, err + float((g.npoints, g.ncells) != (npts, ncells)),
+                                # (Circle and Triangle round their points to the ten digits handed over: 100 * 10^-decimals as in the hook)
+                                1e-8 if gname in ("Circle", "Triangle") else 1e-9,
+                                "%s(<values by position in the documented order>): bounding box, measure, orientation or the numbers of points / cells are not "
+                                "those of the documented parameter order" % gname, unit="generator:positional-arguments", config=("generator-positional", gname))
             elif name == "expand":
                 # every documented argument of expand: any axis, without a new coordinate (bodies that already live in the space they are
                 # expanded in), negative thickness / decreasing positions (judged by measure, see the monitor), points, argument types
@@ -729,7 +782,7 @@ def cases(tier, seed):
     out = []
     for rep in range(2 if tier == "quick" else 10):
         out.append(("generators:%d" % rep, case_generators(rep)))
-    for name in ("conversions", "triangulate", "revolve", "mirror", "merge", "fill_between", "functions", "expand", "runouts"):
+    for name in ("conversions", "triangulate", "revolve", "mirror", "merge", "fill_between", "functions", "expand", "runouts", "positional"):
         out.append(("special:" + name, case_special(name)))
     for rep in range(42 if tier == "quick" else 1500):
         out.append(("program:%d" % rep, case_program(rep)))
@@ -770,6 +823,8 @@ def _required():
     req += ["function:" + t for t in ("expand", "rotate", "revolve", "mirror", "flip", "translate", "triangulate", "convert", "add_midpoints_edges",
                                       "add_midpoints_faces", "add_midpoints_volumes", "collect_edges", "collect_faces", "collect_volumes",
                                       "merge_duplicate_points", "merge_duplicate_cells")]
+    # fourth audit: values by position (named by the documented order), full circles against the closed form of their polygon
+    req += ["method:positional-arguments", "function:positional-arguments", "generator:positional-arguments", "gen.Circle:regular-polygon"]
     return req
 
 
@@ -784,10 +839,13 @@ SPEC = {
              "handed over as generated / renumbered / Fortran-ordered with 32-bit cells, tools called as methods and as "
              "module-level functions in the five documented call styles (by step index); point and cell counts of the "
              "generators, (cell type, points per cell, dimension) of every result, all documented arguments of expand / "
-             "revolve / rotate / convert / disconnect / fill_between, collect_*, merge_duplicate_cells, the container interface"),
+             "revolve / rotate / convert / disconnect / fill_between, collect_*, merge_duplicate_cells, the container interface; "
+             "every tool and generator with more than one argument also with its values by position (names from the documented order)"),
     "assumptions": ["oracle volumes use the vertex sub-cell of higher-order cells (their extra nodes are checked separately)",
                     "cell type names follow the VTK / meshio rule 'vertex cell name + points per cell' for the ten named higher-order types; any other result carries None",
-                    "an argument the caller did not pass has the documented default (table in vmon/monitors/mesh.py), not the value in the signature under test",
+                    "an argument the caller did not pass has the documented default (tables in vmon/monitors/mesh.py: tools and generators), not the value in the signature under test",
+                    "a value passed by position carries the name the documentation gives to that position (DOC_ORDER); argument values are copied before the call",
+                    "a documented positional call that the library refuses ends the case with an error (inconclusive), it is not counted as a violation",
                     "expand with negative / decreasing layer positions or along another axis: measures, layer positions and uniformity of the orientation are judged, not its sense",
                     "revolve: volume of the polygonal sweep = sum sin(dphi) * integral of r dA (derived in vmon/monitors/mesh.py)"],
     "jobs": {"quick": 6, "thorough": 16},
